@@ -16,6 +16,14 @@ HELPERS = 'mesonbuild/interpreterbase/helpers.py'
 INTERP = 'mesonbuild/interpreter/interpreter.py'
 MPARSER = c01_parser.MPARSER
 OPAQUE_METHODS = {'_holderify', '_unholder_args'}       # part of the rules' vocabulary: never spliced
+EVAL_VOCABULARY = OPAQUE_METHODS | {'set_variable', 'get_variable', 'function_call', 'method_call', 'assignment', 'reduce_arguments', 'expand_default_kwargs',
+                                    'unknown_function_called', 'run', 'parse_project', 'sanity_check_ast', 'load_root_meson_file', 'read_buildfile'}
+
+
+def evaluator_helpers(mod: Module) -> T.Dict[str, ast.FunctionDef]:
+    """Methods of InterpreterBase outside the evaluator vocabulary (evaluate_*, variable table, holderify): candidates for extracted blocks."""
+    return {s.name: s for s in mod.cls('InterpreterBase').body if isinstance(s, ast.FunctionDef) and not s.name.startswith('evaluate_') and not s.name.startswith('__')
+            and s.name not in EVAL_VOCABULARY and not s.decorator_list}
 
 
 def rename(t: T.Any, param: str, to: str = 'NODE') -> T.Any:
@@ -42,7 +50,7 @@ class EvalFn:
             raise Undecided(f'{self.qn}: no node parameter')
         self.param = ps[0]
         # statements extracted into private helpers of the class are spliced back (two levels) before the paths are enumerated
-        self.paths = sym_paths(self.fn, unroll=unroll, handlers=handlers, helpers=private_helpers(self.mod.cls('InterpreterBase'), stop=OPAQUE_METHODS))
+        self.paths = sym_paths(self.fn, unroll=unroll, handlers=handlers, helpers=evaluator_helpers(self.mod), mod=self.mod)
 
     def r(self, t: T.Any) -> T.Any:
         return rename(t, self.param)
@@ -60,12 +68,15 @@ def abstract(t: T.Any) -> T.Any:
         fname, recv, args = t[2], t[3], t[4]
         if fname == 'self.evaluate_statement' and len(args) == 1 and args[0][0] == 'name' and args[0][1].startswith('NODE.'):
             return ('EV', args[0][1][5:])
-        if fname == '.operator_call' and recv is not None and len(args) == 2:
-            return ('OP', abstract(args[0]), abstract(recv), abstract(args[1]))
-        if fname == 'self._holderify' and len(args) == 1:
-            return ('HOLD', abstract(args[0]))
-        if fname == '_unholder' and len(args) == 1:
-            return ('UNHOLD', abstract(args[0]))
+        kw = dict(t[5])
+        if fname == '.operator_call' and recv is not None and len(args) + len(kw) == 2 and set(kw) <= {'operator', 'other'}:
+            bound = list(args) + [kw[k] for k in ('operator', 'other')[len(args):]] if set(kw) == set(('operator', 'other')[len(args):]) else None
+            if bound is not None:
+                return ('OP', abstract(bound[0]), abstract(recv), abstract(bound[1]))
+        if fname == 'self._holderify' and len(args) + len(kw) == 1 and set(kw) <= {'res'}:
+            return ('HOLD', abstract((list(args) + list(kw.values()))[0]))
+        if fname == '_unholder' and len(args) + len(kw) == 1 and set(kw) <= {'obj'}:
+            return ('UNHOLD', abstract((list(args) + list(kw.values()))[0]))
         return ('call', fname, abstract(recv) if recv is not None else None, tuple(abstract(a) for a in args), tuple((k, abstract(v)) for k, v in t[5]))
     if t and t[0] == 'name' and isinstance(t[1], str):
         parts = t[1].split('.')
@@ -344,7 +355,11 @@ def check_foreach(ctx: RuleCtx, name: str) -> None:
     for exc, want in (('ContinueRequest', 'continue'), ('BreakRequest', 'break')):
         hs = [n for n in cfg.nodes if n.kind == 'handler' and n.ast.type is not None and norm(n.ast.type).split('.')[-1] == exc]   # type: ignore[union-attr]
         if len(hs) != 1:
-            ctx.violation(mod, qn, f'foreach: handler for {exc}', f'{len(hs)} handlers for {exc} in {name}; `{want}` inside a loop body needs exactly one', fn)
+            mentions = [n for n in cfg.nodes if n.kind == 'handler' and n.ast.type is not None and exc in norm(n.ast.type)]      # type: ignore[union-attr]
+            broad = [n for n in cfg.nodes if n.kind == 'handler' and (n.ast.type is None or norm(n.ast.type).split('.')[-1] in ('Exception', 'BaseException', 'InterpreterException', 'MesonException'))]   # type: ignore[union-attr]
+            if mentions or broad or len(hs) > 1:
+                raise Undecided(f'{qn}: {exc} is handled by a merged / broader / repeated handler this rule does not model')
+            ctx.violation(mod, qn, f'foreach: handler for {exc}', f'no handler of {name} catches {exc}: `{want}` in a loop body would abort the whole foreach statement', fn)
             continue
         h = hs[0]
         srcs = [cfg.nodes[p] for p, lab in cfg.pred[h.id] if lab == 'exc']
@@ -381,7 +396,7 @@ def dispatch_arms(ctx: RuleCtx) -> T.Dict[str, T.Dict[str, T.Any]]:
     param = fn.args.args[1].arg
     arms: T.Dict[str, T.Dict[str, T.Any]] = {}
     order: T.List[str] = []
-    for sp in sym_paths(fn, unroll=1, helpers=private_helpers(mod.cls('InterpreterBase'), stop=OPAQUE_METHODS)):
+    for sp in sym_paths(fn, unroll=1, helpers=evaluator_helpers(mod), mod=mod):
         tests: T.List[T.Tuple[str, bool]] = []
         for t, v in sp.conds():
             if is_call(t, 'isinstance') and len(t[4]) == 2 and t[4][0] == ('name', param):
@@ -445,7 +460,7 @@ def constructible_nodes(ctx: RuleCtx) -> T.Dict[str, str]:
         if not mod.has_func(f'Parser.{meth}'):
             raise Undecided(f'Parser.{meth} not found while closing over returned node classes')
         fn = mod.func(f'Parser.{meth}')
-        for sp in sym_paths(fn, unroll=2, helpers=private_helpers(mod.cls('Parser'))):
+        for sp in sym_paths(fn, unroll=2, helpers=c01_parser.parser_helpers(mod), mod=mod):
             if sp.outcome != 'return':
                 continue
             r = sp.result
@@ -582,8 +597,18 @@ def r5(ctx: RuleCtx) -> None:
             for k, v in zip(c.args[0].keys, c.args[0].values):
                 if k is not None:
                     reg[norm(k)] = norm(v).split('.')[-1]
+    opaque_writes = 0
+    for c in ast.walk(bfn):
+        if isinstance(c, ast.Assign) and len(c.targets) == 1 and isinstance(c.targets[0], ast.Subscript) and norm(c.targets[0].value) == 'self.holder_map':
+            reg[norm(c.targets[0].slice)] = norm(c.value).split('.')[-1]
+        elif isinstance(c, ast.Call) and norm(c.func) == 'self.holder_map.update' and not (len(c.args) == 1 and isinstance(c.args[0], ast.Dict)):
+            opaque_writes += 1
+        elif isinstance(c, ast.Assign) and any(norm(t) == 'self.holder_map' for t in c.targets):
+            opaque_writes += 1
     if not reg:
         raise Undecided('Interpreter.build_holder_map: no `self.holder_map.update({...})` dict display found')
+    if opaque_writes and any(k not in reg for k in ('int', 'bool', 'str', 'list', 'dict')):
+        raise Undecided('Interpreter.build_holder_map: holder_map is also filled in a way this rule cannot fold')
     want = {'int': 'IntegerHolder', 'bool': 'BooleanHolder', 'str': 'StringHolder', 'list': 'ArrayHolder', 'dict': 'DictHolder'}
     for k, v in want.items():
         ctx.require(reg.get(k) == v, f'holder_map[{k}] = {v}', im, 'Interpreter.build_holder_map', f'holder for {k}', f'{k} values are held by {reg.get(k)}; reference {v}', bfn)
